@@ -175,11 +175,26 @@ func (h *hist) afterStep(c *cl, what string) {
 		}
 		delete(h.pendingMods, c.h)
 		delete(h.pendingKinds, c.h)
-		// revocation: once told that `present` is gone, no up stream is left
+		// revocation: the notification of a permission change is the
+		// joined/change written by permissionsChangedAction, which closes
+		// the up streams in the same handler; it runs in the service of the
+		// queue that FOLLOWS the one in which the change was applied.  So:
+		// a client that held no `present` already before this service, and
+		// is told so in it, has no up stream left after it.  (A joined/change
+		// caused by a lock or group-data change that is served in the same
+		// batch as the permission change also shows the new set, one batch
+		// before the streams are closed: observed, counted as a note.)
 		for _, m := range c.msgs {
 			if m.Type == "joined" && m.Kind == "change" && !has(m.Permissions, "present") {
+				ids := c.c.UpIds()
+				if has(c.perms, "present") {
+					if len(ids) > 0 && !has(c.c.Permissions(), "present") {
+						h.t.Note("early-joined-change-before-streams-closed")
+					}
+					continue
+				}
 				h.t.Checked("C11.unpresent_closes_streams")
-				if ids := c.c.UpIds(); len(ids) > 0 && !has(c.c.Permissions(), "present") {
+				if len(ids) > 0 && !has(c.c.Permissions(), "present") {
 					h.t.Fail("C11", "unpresent_closes_streams", fmt.Sprintf("client %d was notified of permissions %v but still has up streams %v", c.h, m.Permissions, ids))
 				}
 			}
